@@ -4,10 +4,10 @@ import json, os
 V = os.path.dirname(os.path.dirname(os.path.abspath(__file__)))
 props = [json.loads(l) for l in open(os.path.join(V, "properties.jsonl"))]
 CLAIMS = {
- "C01": ("TLC model checking of Falcon.tla (Completeness, CosetInvariant for all keys x all z in a box; broken variants) + TLC trace validation of real sign/verify calls incl. TLC-generated forced retry paths",
+ "C01": ("TLC model checking of Falcon.tla (Completeness, CosetInvariant for all keys x all z in a box; broken variants, vacuity guards) + TLC trace validation of real sign/verify calls: TLC-generated forced retry paths, scripted far first candidates, one-thread call sequences, 16 threads on one key",
          "Exhaustive on the toy ring for the lattice algebra and the retry skeleton; on the real code every recorded honest signature (keys x message lengths x forced retry patterns x scripted generator x 16 threads) is re-verified by TLC from bytes with SHAKE-256 and Algorithm 16 evaluated in TLA+.",
          "TLC, CommunityModules; transcription of Algorithms 3/10/16/18; fault taps force retries without changing the computation; integrality of ffSampling observed not proved", "5/C01"),
- "C02": ("TLC trace validation: SpecVerify (Algorithms 16+3+18 in TLA+) recomputed from raw bytes on an adversarial corpus incl. exact-norm boundary triples built through crafted public keys",
+ "C02": ("TLC trace validation: SpecVerify (Algorithms 16+3+18 in TLA+, SHAKE-256 included) recomputed from raw bytes on an adversarial corpus incl. exact-norm boundary triples built through crafted public keys, centred-reduction edge, call sequences and cross-variant keys; judged on acceptance; binding self-tests in the thorough tier",
          "Each recorded verify call must equal the TLA+ definition evaluated by TLC; the corpus is constructed to sit on every decision boundary (norm = bound-1/bound/bound+1, malformed bodies, bit flips, degenerate keys).",
          "TLC; MC_Ntt and MC_Keccak justify the fast evaluators used inside SpecVerify", "5/C02"),
  "C03": ("TLC model checking of an implementation-shaped decompress model (panic states unreachable on all strings of length <= 3) + replay of all TLC-generated cases + TLC trace validation of decoder/verify families with panic as an outcome",
@@ -16,7 +16,7 @@ CLAIMS = {
  "C07": ("TLC model checking of Codec.tla (canonicity, round trip on all strings of length <= 3 and box vectors) + TLC-generated exhaustive cases replayed on the real compress/decompress + TLC trace validation of production-size families",
          "Exhaustive for short strings in both directions (spec theorems and real code), constructed boundary families at (512,625) and (1024,1239) judged by TLC.",
          "TLC; hook wrappers verif::compress/decompress are thin", "5/C07"),
- "C08": ("TLC model checking of Falcon.tla (SaltsFresh, SaltDrawnOnce under all interleavings; broken variants must fail) + TLC trace validation of multi-process multi-thread sign histories",
+ "C08": ("TLC model checking of Falcon.tla (SaltsFresh, SaltDrawnOnce under all interleavings; broken variants must fail) + Apalache inductive invariant for unbounded calls/retries (SaltModel) + TLC trace validation of multi-process multi-thread sign histories incl. deterministic operations before signing",
          "All interleavings of the abstract entropy model; on the real code whole histories (3 processes x 16 threads) are checked for repeated salts, constant byte positions and equal signatures of equal messages.",
          "unpredictability of ThreadRng trusted; 'never' decided on the observed history", "5/C08"),
  "C15": ("TLC model checking of Falcon.tla (KeygenFunctional, KeysStable, SeedSensitive; broken variant must fail) + TLC trace validation of keygen histories across threads, processes and all 256 seed bit flips",
